@@ -460,7 +460,14 @@ func c15(r *core.Run) {
 					r.Undec("L1", core.FuncName(fn), kind+":"+core.FuncName(cal)+":channel-unresolved", p.InstrPos(c), "cannot tie the ranged channel to a field")
 					continue
 				}
-				r.Check(closedFields[fld], "L1", core.FuncName(fn), kind+":"+core.FuncName(cal)+":ranges-"+fld.String(), p.InstrPos(c), "the channel is closed somewhere in the library, so the loop can end", "the function ranges over "+fld.String()+" which no library code ever closes: every expired query event leaves its listener goroutine (and channel) parked forever")
+				calName, fldName := core.FuncName(cal), fld.String()
+			if cal == lst {
+				calName = "<query-listener>" // role labels: keep the known finding's key stable under renaming
+				if strings.HasSuffix(fld.Struct, "queryEvent") {
+					fldName = "<query-channel>"
+				}
+			}
+			r.Check(closedFields[fld], "L1", core.FuncName(fn), kind+":"+calName+":ranges-"+fldName, p.InstrPos(c), "the channel is closed somewhere in the library, so the loop can end", "the function ranges over "+fld.String()+" which no library code ever closes: every expired query event leaves its listener goroutine (and channel) parked forever")
 			}
 		}
 	}
